@@ -164,6 +164,12 @@ def gen_cases(rng, tier):
     for j in range({"quick": 2, "thorough": 6, "search": 4}[tier]):
         cases.append(_case(rng, 2, rng.choice([2, 2, 3]), "single_pass", [None, "by_label"][j % 2], ep=rng.choice([0, 1]),
                            en=rng.choice([0, 2]), distinct=True, stat=4000 if tier == "quick" else 12000, tiny=True))
+    # H4. another object of the same total size (other class split) was resampled with an equal dynamic config just before:
+    # the resolution of "dynamic" depends on each object's own class sizes
+    for j in range({"quick": 4, "thorough": 16, "search": 8}[tier]):
+        a_, b_ = [((290, 10), (150, 150)), ((150, 150), (290, 10)), ((95, 205), (150, 150)), ((120, 180), (60, 240))][j % 4]
+        cases.append(_case(rng, a_[0], a_[1], "dynamic", [None, "by_label"][j % 2], ep=rng.choice([0, 5]), en=rng.choice([0, 3]),
+                           warm_other=list(b_)))
     # I. call histories: the object has produced samples under other configurations before the observed call
     def other_cfg(big):
         return {"method": rng.choice(["dynamic", "replacement"] + (["single_pass"] if big else [])),
@@ -306,6 +312,11 @@ def run_impl(case):
         return {"empty": empty[:5], "stat": k, "sum_pos": tot_p, "sum_neg": tot_n, "sum_ep": tot_ep, "sum_en": tot_en,
                 "mult_pos": list(mp.values()) if len(mp) == len(pos) else None,
                 "mult_neg": list(mn.values()) if len(mn) == len(neg) else None}
+    if case.get("warm_other"):
+        wp, wn = case["warm_other"]
+        other = Scores(np.arange(wp, dtype=float), np.arange(wn, dtype=float) + 0.5, score_class=case["sc"], equal_class=case["ec"])
+        np.random.seed((case["seed"] + 29) % 2**32)
+        other.bootstrap_sample(_config(case))
     for w in case.get("warm") or []:
         # earlier calls on the same object (their samples are discarded): the observed call has to behave as on a fresh object
         np.random.seed((case["seed"] + 17) % 2**32)
